@@ -46,11 +46,30 @@ type c23Feeder struct {
 	ad      *adapterpkg.Adapter
 	sess    session.Session
 	inbound []byte
-	scratch []byte
+	slab    []byte
+	slabOff int
 }
 
 func c23NewFeeder(vcase int) *c23Feeder {
-	return &c23Feeder{ad: adapterpkg.New(), sess: c23Session(vcase)}
+	return &c23Feeder{ad: adapterpkg.New(), sess: c23Session(vcase), slab: make([]byte, 1<<16)}
+}
+
+// exact returns a copy of in whose capacity equals its length (three-index slice of a
+// per-feeder slab that is reused cyclically, like a transport read buffer).
+func (fd *c23Feeder) exact(in []byte) []byte {
+	n := len(in)
+	if n > len(fd.slab)/4 {
+		b := make([]byte, n)
+		copy(b, in)
+		return b
+	}
+	if fd.slabOff+n > len(fd.slab) {
+		fd.slabOff = 0
+	}
+	b := fd.slab[fd.slabOff : fd.slabOff+n : fd.slabOff+n]
+	fd.slabOff += n
+	copy(b, in)
+	return b
 }
 
 type c23Call struct {
@@ -64,8 +83,7 @@ type c23Call struct {
 // result shape the property demands for arbitrary input: no panic, and exactly one of
 // {error (no frames, no progress), frames with 0 < consumed <= len, wait (nothing)}.
 func (fd *c23Feeder) decode(in []byte) (c c23Call, v *c23Viol) {
-	buf := make([]byte, len(in))
-	copy(buf, in)
+	buf := fd.exact(in)
 	c.buf = buf
 	func() {
 		defer func() {
